@@ -86,10 +86,10 @@ def run(ctx: Ctx):
         if n in reach or n not in hm.functions:
             continue
         reach.add(n)
-        for c in calls_in(hm.functions[n]):
-            d = dotted(c.func)
-            if d in hm.functions:
-                todo.append(d)
+        # every reference counts (a function put into a table and called through it is reachable too)
+        for c in ast.walk(hm.functions[n]):
+            if isinstance(c, ast.Name) and isinstance(c.ctx, ast.Load) and c.id in hm.functions:
+                todo.append(c.id)
     ctx.floor("functions reachable from register_hooks", len(reach), 4)
 
     def with_lock_ancestors(node, fn):
@@ -240,21 +240,59 @@ def run(ctx: Ctx):
     ctx.fn("converters.py:get_converter")
     if len(gc.args.args) != 1:
         raise AnalysisError(f"{P_CONVERTERS}: get_converter signature changed")
-    p = gc.args.args[0].arg
-    fresh = False
-    for node in ast.walk(gc):
-        if isinstance(node, ast.If) and isinstance(node.test, ast.Compare) and dotted(node.test.left) == p \
-                and isinstance(node.test.ops[0], ast.Is) and isinstance(node.test.comparators[0], ast.Constant) \
-                and node.test.comparators[0].value is None:
-            for st in node.body:
-                if isinstance(st, ast.Assign) and dotted(st.targets[0]) == p and isinstance(st.value, ast.Call) \
-                        and (dotted(st.value.func) or "").endswith("Converter"):
-                    fresh = True
+    # folded: get_converter is evaluated with cattrs.Converter and register_hooks stubbed, (a) without an
+    # argument, twice, (b) with a given converter
+    from ..microeval import Interp, ModuleRef, Record, Raised
+    made = []
+
+    def mk_converter(*a, **k):
+        r = Record("Converter", {"serial": len(made)})
+        made.append(r)
+        return r
+
+    def reg(c):
+        return Record("Registered", {"converter": c})
+    stub_hooks = ModuleRef("_hooks", attrs={"register_hooks": ("host", reg)})
+    stub_cattrs = ModuleRef("cattrs", attrs={"Converter": ("host", mk_converter)})
+    g = {"register_hooks": ("host", reg)}
+    for st in cm.tree.body:
+        if isinstance(st, ast.Import):
+            for a in st.names:
+                if a.name.split(".")[0] == "cattrs":
+                    g[a.asname or "cattrs"] = stub_cattrs
+        elif isinstance(st, ast.ImportFrom):
+            for a in st.names:
+                if a.name == "_hooks":
+                    g[a.asname or a.name] = stub_hooks
+                elif a.name == "Converter":
+                    g[a.asname or a.name] = ("host", mk_converter)
+                elif a.name == "register_hooks":
+                    g[a.asname or a.name] = ("host", reg)
+    it = Interp(name=P_CONVERTERS, extra_globals=g)
+    for st in cm.tree.body:
+        if isinstance(st, ast.FunctionDef):
+            from ..microeval import Closure
+            it.globals[st.name] = Closure(st, None, it)
+
+    def fold(args):
+        try:
+            return it.call(gc, args)
+        except Raised as e:
+            return ("raised", e.exc_name)
+    n0 = len(made)
+    r1 = fold([])
+    n1 = len(made)
+    r2 = fold([None])
+    n2 = len(made)
+
+    def fresh_from(r, lo, hi):
+        return isinstance(r, Record) and r.cls_name == "Registered" and any(r.fields["converter"] is m for m in made[lo:hi])
+    fresh = fresh_from(r1, n0, n1) and fresh_from(r2, n1, n2)
     ctx.check(fresh, "fresh-converter", "get_converter:none-branch",
               "get_converter(None) does not create a fresh cattrs.Converter() per call", P_CONVERTERS, gc.lineno)
-    rets = [n for n in ast.walk(gc) if isinstance(n, ast.Return)]
-    ok = len(rets) == 1 and isinstance(rets[0].value, ast.Call) and (dotted(rets[0].value.func) or "").endswith("register_hooks") \
-        and len(rets[0].value.args) == 1 and dotted(rets[0].value.args[0]) == p
+    given = Record("Converter", {"serial": "given"})
+    r3 = fold([given])
+    ok = isinstance(r3, Record) and r3.cls_name == "Registered" and r3.fields["converter"] is given and fresh
     ctx.check(ok, "fresh-converter", "get_converter:return",
               "get_converter does not return register_hooks(<the converter it was given / created>)", P_CONVERTERS, gc.lineno)
     default_none = len(gc.args.defaults) == 1 and isinstance(gc.args.defaults[0], ast.Constant) and gc.args.defaults[0].value is None
